@@ -155,3 +155,9 @@ def utf8_valid(b):
     except UnicodeDecodeError:
         return False
     return True
+
+
+def proved(cond, label="step"):
+    """intermediate proof step: the verifier must PROVE cond here (its own obligation) and may use it
+    afterwards.  Natively it is just the condition."""
+    return bool(cond)
